@@ -6,6 +6,8 @@
 (*    rp:  [{ok, abs, segs}]                 os.ResolvePath for the bases of BaseSeq   *)
 (*    vos: [{ms, cwd, outs: [{ok, si, m, rel, by}]}]   VirtualOS with recording mounts *)
 (*    mt:  [{ok, si, m, rel}]                VirtualOS.MkdirTemp("", path as pattern)  *)
+(*    vos2: [{ms, cwd, an, first, op, ok, si, m, r1, r2}]  Rename / Symlink of the path  *)
+(*                                           and an anchor inside a mount               *)
 (*    fs:  [{b, m, e, t, l}]}                localfs.Filesystem on a real temp tree:   *)
 (*                                           method m, error e, host locations t that  *)
 (*                                           were read or changed, symlink targets l   *)
@@ -57,6 +59,24 @@ VOSCheck == Have =>
                                 \/ ~o.ok /\ ~o.si /\ e.rel # <<>> /\ e.rel[1] \in DDNames
                    ELSE ~o.ok /\ ~o.si
     IN (Len(v.outs) >= 1 /\ \A j \in 1..Len(v.outs): good(v.outs[j])) \/ Report("vos", k, e)
+
+\* two-path operations (Rename, Symlink) with the script path p and an anchor path inside one of
+\* the mounts, in both argument positions: the call is served - by the one mount that FindMount
+\* gives for BOTH arguments, with both relative locations - only when both arguments lie in the
+\* same mount; in every other case it must be refused (a mount never receives a location that
+\* belongs to another mount)
+VOS2Check == Have =>
+  \A k \in 1..Len(C.vos2):
+    LET v  == C.vos2[k]
+        an == [abs |-> TRUE, segs |-> v.an, trail |-> FALSE]
+        e1 == FindMount(MountSetSeq[v.ms], CwdSeq[v.cwd], IF v.first THEN an ELSE p)
+        e2 == FindMount(MountSetSeq[v.ms], CwdSeq[v.cwd], IF v.first THEN p ELSE an)
+        dd(r) == r # <<>> /\ r[1] \in DDNames
+        good == IF e1.ok /\ e2.ok /\ e1.m = e2.m
+                THEN \/ v.ok /\ v.m = e1.m /\ v.r1 = e1.rel /\ v.r2 = e2.rel
+                     \/ ~v.ok /\ ~v.si /\ (dd(e1.rel) \/ dd(e2.rel))
+                ELSE ~v.ok /\ ~v.si
+    IN good \/ Report("vos2", k, [e1 |-> e1, e2 |-> e2])
 
 \* VirtualOS.MkdirTemp("", pattern) with the temporary directory /tmp: the script-supplied
 \* pattern must not smuggle separators or dot segments into the path handed to the mount
